@@ -568,7 +568,7 @@ pub fn real_sessions(acc: &mut Acc) -> Option<String> {
         ("end of input while searching", vec![("position startpos", ""), ("go infinite", "info depth")], true),
         ("quit while searching", vec![("position startpos", ""), ("go infinite", "info depth"), ("quit", "")], false),
     ];
-    for (name, steps, eof) in &scripts {
+    let res = par_items(&scripts, &|_, (name, steps, eof), acc| {
         acc.states += 1;
         acc.evaluations += 1;
         let key = format!("real|{}", name);
@@ -577,7 +577,7 @@ pub fn real_sessions(acc: &mut Acc) -> Option<String> {
             Ok(s) => s,
             Err(e) => {
                 acc.errors.push(e);
-                continue;
+                return;
             }
         };
         let mut failed = None;
@@ -619,7 +619,8 @@ pub fn real_sessions(acc: &mut Acc) -> Option<String> {
             Some(f) => acc.violation(key, format!("real binary, session `{}` ({}): {}", name, steps.iter().map(|(l, _)| *l).collect::<Vec<_>>().join(" / "), f), replay),
             None => acc.outcome(format!("real binary: {}", name)),
         }
-    }
+    });
+    acc.merge(res);
     Some(bin)
 }
 
